@@ -107,6 +107,9 @@ class BoRun:
         self.backend = None if fac == 'native' else bk.SimBackend(
             tape, out, n_workers=sched['workers'], pickled=(fac != 'pool_ref'),
             eager=sched['eager'], bg_max=sched['bg_max'], stall=sched['stall'])
+        if self.backend is not None and sched.get('cores0'):
+            self.backend.reported_cores = 0     # engines not registered yet; mpb is explicit
+            out.stats['client_reports_zero_cores'] += 1
         sp.REC.backend = self.backend
         self.client = bk.make_client(elfi, fac, self.backend)
         elfi.set_client(self.client)
